@@ -7,6 +7,7 @@ import (
 	"hash/fnv"
 	"io"
 	"net"
+	"os"
 	"strings"
 	"sync"
 	"testing"
@@ -24,6 +25,42 @@ type tcpScript struct {
 	expect int // total bytes the client sends, including the tag byte
 	reply  []byte
 	cuts   []int
+	// schedule: reply piece gate-1 (gate > 0) is written only after the whole client
+	// stream has arrived and - when clientClosed is set - the client has ended its
+	// sending side (half-close), plus linger so that the proxy has seen that too
+	gate         int
+	linger       time.Duration
+	clientClosed *latch
+	// the backend ends its own sending side after the reply and keeps reading
+	halfClose     bool
+	backendClosed *latch
+}
+
+// latch is a one-shot in-process signal between the harness's client and backend (the
+// proxy under test relays no end-of-stream, so the two ends of a case coordinate here).
+type latch struct {
+	once sync.Once
+	ch   chan struct{}
+}
+
+func newLatch() *latch { return &latch{ch: make(chan struct{})} }
+
+func (l *latch) fire() {
+	if l != nil {
+		l.once.Do(func() { close(l.ch) })
+	}
+}
+
+// wait returns when the latch fired; the bound only keeps a broken case from hanging,
+// its expiry decides nothing.
+func (l *latch) wait() {
+	if l == nil {
+		return
+	}
+	select {
+	case <-l.ch:
+	case <-time.After(20 * time.Second):
+	}
 }
 
 type tcpSeen struct {
@@ -116,19 +153,29 @@ func (b *tcpBackend) handle(c *net.TCPConn, gen int) {
 	}
 	var wg sync.WaitGroup
 	wg.Add(1)
+	complete := newLatch()
 	go func() {
 		defer wg.Done()
+		defer sc.backendClosed.fire()
 		for i, part := range split(sc.reply, sc.cuts) {
-			if i > 0 && i <= 2 {
+			if sc.gate > 0 && i == sc.gate-1 {
+				complete.wait()
+				sc.clientClosed.wait()
+				time.Sleep(sc.linger)
+			} else if i > 0 && i <= 2 {
 				time.Sleep(300 * time.Microsecond)
 			}
 			if _, err := c.Write(part); err != nil {
 				return
 			}
 		}
+		if sc.halfClose {
+			c.CloseWrite()
+		}
 	}()
 	buf := make([]byte, sc.expect-1)
 	n, _ := io.ReadFull(c, buf)
+	complete.fire()
 	seen.mu.Lock()
 	seen.data = append(seen.data, buf[:n]...)
 	seen.mu.Unlock()
@@ -233,12 +280,17 @@ type dnsTCPBackend struct {
 	port int
 
 	mu      sync.Mutex
-	scripts map[string][]byte
+	scripts map[string]dnsTCPScript
 	seen    map[string]int
 	stray   []string
 	remotes []string
 	gen     int
 	open    map[net.Conn]bool
+}
+
+type dnsTCPScript struct {
+	reply []byte
+	cuts  []int // write boundaries inside the framed reply (length prefix included)
 }
 
 func newDNSTCPBackend(addr string) (*dnsTCPBackend, error) {
@@ -272,7 +324,7 @@ func (b *dnsTCPBackend) reset() {
 	b.mu.Lock()
 	old := b.open
 	b.gen++
-	b.scripts = map[string][]byte{}
+	b.scripts = map[string]dnsTCPScript{}
 	b.seen = map[string]int{}
 	b.stray = nil
 	b.remotes = nil
@@ -309,7 +361,8 @@ func (b *dnsTCPBackend) handle(c *net.TCPConn, gen int) {
 			b.mu.Unlock()
 			return
 		}
-		reply, ok := b.scripts[string(msg)]
+		sc, ok := b.scripts[string(msg)]
+		reply := sc.reply
 		if ok {
 			b.seen[string(msg)]++
 		} else {
@@ -322,8 +375,13 @@ func (b *dnsTCPBackend) handle(c *net.TCPConn, gen int) {
 		out := make([]byte, 2+len(reply))
 		binary.BigEndian.PutUint16(out, uint16(len(reply)))
 		copy(out[2:], reply)
-		if _, err := c.Write(out); err != nil {
-			return
+		for i, part := range split(out, sc.cuts) {
+			if i > 0 && i <= 2 {
+				time.Sleep(300 * time.Microsecond)
+			}
+			if _, err := c.Write(part); err != nil {
+				return
+			}
 		}
 	}
 }
@@ -345,6 +403,11 @@ type dnsQuery struct {
 	Names  []string `json:"names"`
 	Types  []int    `json:"types"`
 	EDNS   bool     `json:"edns"`
+	// Size > 0: the message is brought to exactly Size bytes on the wire by an EDNS0
+	// padding option (RFC 7830) in the OPT record, filled from PadSeed (ignored when
+	// the message is larger than that without padding)
+	Size    int `json:"size,omitempty"`
+	PadSeed int `json:"pad_seed,omitempty"`
 }
 
 type rawClient struct {
@@ -352,6 +415,21 @@ type rawClient struct {
 	// copy-tcp: 0 = copy service whose director host carries a port, 1 = copy service on
 	// the director without a port that the two http-proxy ports share
 	Svc int `json:"svc,omitempty"`
+	// schedule of the two ends of a tcp relay (copy-tcp, dns-tcp):
+	// HalfClose: the client ends its sending side (TCP half-close) right after its last
+	// byte and then reads the reply to the end.
+	HalfClose bool `json:"half_close,omitempty"`
+	// copy-tcp, Gate > 0: the backend holds reply piece Gate-1 (and what follows) back
+	// until it has the whole client stream and, with HalfClose, until the client has ended
+	// its sending side, plus LingerMs. Gate 0: the backend replies from the first byte on.
+	Gate     int `json:"gate,omitempty"`
+	LingerMs int `json:"linger_ms,omitempty"`
+	// copy-tcp, the mirror image: the backend ends ITS sending side after the reply and
+	// keeps reading; the client holds stream piece CGate-1 (CGate > 1: the first piece
+	// carries the tag byte) and what follows back until then (ignored together with Gate:
+	// the two ends would wait for each other).
+	BackendHalfClose bool `json:"backend_half_close,omitempty"`
+	CGate            int  `json:"cgate,omitempty"`
 }
 
 type rawCase struct {
@@ -388,7 +466,18 @@ func (q *dnsQuery) wire(id uint16) []byte {
 		b.Write(tc[:])
 	}
 	if q.EDNS {
-		b.Write([]byte{0, 0, 41, 0x10, 0x00, 0, 0, 0, 0, 0, 0})
+		// root name, type OPT, udp size 4096, ttl 0; then rdlength
+		b.Write([]byte{0, 0, 41, 0x10, 0x00, 0, 0, 0, 0})
+		if pad := q.Size - (b.Len() + 2) - 4; q.Size > 0 && q.Size <= 65535 && pad >= 0 {
+			var o [6]byte
+			binary.BigEndian.PutUint16(o[0:], uint16(4+pad))
+			binary.BigEndian.PutUint16(o[2:], 12) // option code: padding
+			binary.BigEndian.PutUint16(o[4:], uint16(pad))
+			b.Write(o[:])
+			b.Write(bodySpec{Len: pad, Seed: q.PadSeed}.bytes())
+		} else {
+			b.Write([]byte{0, 0})
+		}
 	}
 	return b.Bytes()
 }
@@ -481,6 +570,7 @@ func checkRawOnce(t testing.TB, c rawCase) error {
 	mark := e.cap.Len()
 	payloads := c.payloads()
 	results := make([]*rawResult, len(c.Clients))
+	scheds := make([]*copySched, len(c.Clients))
 	var wg sync.WaitGroup
 	tagOf := func(ci int) byte { return byte((epoch%64)*4 + ci) }
 	var ub *udpBackend
@@ -490,8 +580,19 @@ func checkRawOnce(t testing.TB, c rawCase) error {
 		for ci, cl := range c.Clients {
 			m := cl.Msgs[0]
 			be := copyBackends[cl.Svc%2]
+			sc := &tcpScript{expect: 1 + len(payloads[ci][0]), reply: c.reply(ci, 0, 0, nil), cuts: m.RCuts,
+				gate: cl.Gate, linger: time.Duration(cl.LingerMs) * time.Millisecond, halfClose: cl.BackendHalfClose}
+			scheds[ci] = &copySched{halfClose: cl.HalfClose, linger: sc.linger}
+			if cl.HalfClose {
+				sc.clientClosed = newLatch()
+				scheds[ci].clientClosed = sc.clientClosed
+			}
+			if cl.BackendHalfClose && cl.CGate > 1 && cl.Gate == 0 {
+				sc.backendClosed = newLatch()
+				scheds[ci].cgate, scheds[ci].backendClosed = cl.CGate, sc.backendClosed
+			}
 			be.mu.Lock()
-			be.scripts[tagOf(ci)] = &tcpScript{expect: 1 + len(payloads[ci][0]), reply: c.reply(ci, 0, 0, nil), cuts: m.RCuts}
+			be.scripts[tagOf(ci)] = sc
 			be.mu.Unlock()
 		}
 	case "copy-udp", "dns-udp":
@@ -520,7 +621,7 @@ func checkRawOnce(t testing.TB, c rawCase) error {
 		e.dnsTB.mu.Lock()
 		for ci, cl := range c.Clients {
 			for j := range cl.Msgs {
-				e.dnsTB.scripts[string(payloads[ci][j])] = c.reply(ci, j, 0, payloads[ci][j])
+				e.dnsTB.scripts[string(payloads[ci][j])] = dnsTCPScript{reply: c.reply(ci, j, 0, payloads[ci][j]), cuts: cl.Msgs[j].RCuts}
 			}
 		}
 		e.dnsTB.mu.Unlock()
@@ -533,7 +634,7 @@ func checkRawOnce(t testing.TB, c rawCase) error {
 			defer wg.Done()
 			switch c.Kind {
 			case "copy-tcp":
-				results[ci] = runCopyTCP(ci, e.addr(copyPorts[c.Clients[ci].Svc%2]), tagOf(ci), payloads[ci][0], c.Clients[ci].Msgs[0].Cuts, len(c.reply(ci, 0, 0, nil)))
+				results[ci] = runCopyTCP(ci, e.addr(copyPorts[c.Clients[ci].Svc%2]), tagOf(ci), payloads[ci][0], c.Clients[ci].Msgs[0].Cuts, len(c.reply(ci, 0, 0, nil)), scheds[ci])
 			case "dns-tcp":
 				results[ci] = runDNSTCP(ci, e.addr(proxyPort), c.Clients[ci], payloads[ci])
 			default:
@@ -736,7 +837,16 @@ func countSeen(seen map[string]int, ps [][]byte) int {
 	return n
 }
 
-func runCopyTCP(ci int, addr string, tag byte, payload []byte, cuts []int, replyLen int) *rawResult {
+// copySched is the client's side of a copy-tcp schedule (see rawClient).
+type copySched struct {
+	halfClose     bool
+	clientClosed  *latch
+	cgate         int
+	backendClosed *latch
+	linger        time.Duration
+}
+
+func runCopyTCP(ci int, addr string, tag byte, payload []byte, cuts []int, replyLen int, sched *copySched) *rawResult {
 	res := &rawResult{}
 	c, err := dialTCPFrom(ci, addr)
 	if err != nil {
@@ -748,14 +858,22 @@ func runCopyTCP(ci int, addr string, tag byte, payload []byte, cuts []int, reply
 	res.local = c.LocalAddr()
 	stream := append([]byte{tag}, payload...)
 	go func() {
+		// whatever happens to the writes, the backend is not left waiting for the signal
+		defer sched.clientClosed.fire()
 		for i, part := range split(stream, cuts) {
-			if i > 0 && i <= 2 {
+			if sched.cgate > 0 && i == sched.cgate-1 {
+				sched.backendClosed.wait()
+				time.Sleep(sched.linger)
+			} else if i > 0 && i <= 2 {
 				time.Sleep(time.Millisecond)
 			}
 			c.SetWriteDeadline(time.Now().Add(30 * time.Second))
 			if _, err := c.Write(part); err != nil {
 				return
 			}
+		}
+		if sched.halfClose {
+			c.(*net.TCPConn).CloseWrite()
 		}
 	}()
 	res.sent = 1
@@ -894,6 +1012,10 @@ func runDNSTCP(ci int, addr string, cl rawClient, payloads [][]byte) *rawResult 
 				return res
 			}
 		}
+		if cl.HalfClose && j == len(cl.Msgs)-1 {
+			// nothing more to ask: the client ends its sending side and reads the reply
+			c.(*net.TCPConn).CloseWrite()
+		}
 		res.sent = j + 1
 		c.SetReadDeadline(time.Now().Add(waitBound))
 		var lb [2]byte
@@ -953,6 +1075,23 @@ func genDatagramLen(t *rapid.T, label string) int {
 	}
 }
 
+// genFramedSize draws the size of a message behind a two-byte length prefix: 0 (leave the
+// natural size), anywhere up to the largest the prefix can express, or at the boundaries.
+func genFramedSize(t *rapid.T, label string) int {
+	switch rapid.IntRange(0, 9).Draw(t, label+"-bucket") {
+	case 0, 1:
+		return rapid.IntRange(600, 65535).Draw(t, label)
+	case 2, 3:
+		return rapid.SampledFrom([]int{65535, 65535, 65534, 65534, 65533, 65532, 65531, 32768, 32767, 16384, 4096, 1024}).Draw(t, label)
+	default:
+		return 0
+	}
+}
+
+// genBackendHalfClose: the mirror-image schedule (the backend ends its sending side
+// first while the client still sends) is generated only on request, see prop.json.
+var genBackendHalfClose = os.Getenv("VERIF_C15_BACKEND_HALFCLOSE") == "1"
+
 func genDatagram(t *rapid.T, label string) bodySpec {
 	return bodySpec{Len: genDatagramLen(t, label), Seed: rapid.IntRange(0, 1000).Draw(t, label+"-seed"), Kind: rapid.IntRange(0, 2).Draw(t, label+"-kind")}
 }
@@ -965,10 +1104,28 @@ func genRawCase(t *rapid.T, kind string) rawCase {
 		switch kind {
 		case "copy-tcp":
 			m := rawMsg{Data: genBody(t, "stream"), Replies: []bodySpec{genBody(t, "reply")}}
+			if rapid.IntRange(0, 9).Draw(t, "long-reply") == 0 {
+				// more than the socket buffers between backend and client hold: the reply
+				// is still streaming when the client has long finished sending
+				m.Replies[0].Len = rapid.IntRange(65537, 1<<20).Draw(t, "long-reply-len")
+			}
 			m.Cuts = genCuts(t, "cut", m.Data.Len+1)
 			m.RCuts = genCuts(t, "rcut", m.Replies[0].Len)
 			cl.Msgs = []rawMsg{m}
 			cl.Svc = rapid.IntRange(0, 1).Draw(t, "svc")
+			// schedule of the two ends against each other
+			cl.HalfClose = rapid.Bool().Draw(t, "half-close")
+			if rapid.IntRange(0, 2).Draw(t, "gated") > 0 {
+				pieces := len(split(make([]byte, m.Replies[0].Len), m.RCuts))
+				cl.Gate = rapid.IntRange(1, pieces).Draw(t, "gate")
+				cl.LingerMs = rapid.SampledFrom([]int{0, 1, 10, 40}).Draw(t, "linger")
+			}
+			if pieces := len(split(make([]byte, m.Data.Len+1), m.Cuts)); genBackendHalfClose && cl.Gate == 0 && pieces >= 2 && rapid.Bool().Draw(t, "backend-half-close") {
+				// the first piece carries the tag byte the backend picks its script by
+				cl.BackendHalfClose = true
+				cl.CGate = rapid.IntRange(2, pieces).Draw(t, "cgate")
+				cl.LingerMs = rapid.SampledFrom([]int{0, 1, 10, 40}).Draw(t, "clinger")
+			}
 		case "copy-udp":
 			k := rapid.IntRange(1, 4).Draw(t, "ndgram")
 			for j := 0; j < k; j++ {
@@ -1000,10 +1157,23 @@ func genRawCase(t *rapid.T, kind string) rawCase {
 			for j := 0; j < k; j++ {
 				m := rawMsg{Data: bodySpec{Seed: rapid.IntRange(0, 1000).Draw(t, "seed")}, DNS: genDNSQuery(t)}
 				r := genDatagram(t, "reply")
+				// over tcp a message is as long as its two-byte length prefix can say
+				if size := genFramedSize(t, "qsize"); size >= 600 {
+					m.DNS.EDNS, m.DNS.Size, m.DNS.PadSeed = true, size, rapid.IntRange(0, 1000).Draw(t, "pad-seed")
+				}
+				if size := genFramedSize(t, "rsize"); size >= 4 {
+					r.Len = size - 4 // the reply carries a four byte head of its own (id, flags)
+				}
 				m.Replies = []bodySpec{r}
-				m.Cuts = genCuts(t, "cut", 40)
+				if rapid.Bool().Draw(t, "cut-anywhere") {
+					m.Cuts = genCuts(t, "cut", 2+len(m.DNS.wire(0)))
+				} else {
+					m.Cuts = genCuts(t, "cut", 40)
+				}
+				m.RCuts = genCuts(t, "rcut", 2+4+r.Len)
 				cl.Msgs = append(cl.Msgs, m)
 			}
+			cl.HalfClose = rapid.IntRange(0, 2).Draw(t, "half-close") == 0
 		}
 		c.Clients = append(c.Clients, cl)
 	}
@@ -1041,7 +1211,7 @@ func (c rawCase) nontrivial() bool {
 	return false
 }
 
-const rawRule = "copy over tcp: two copy services (own director with a port / the port-less director shared with two http-proxy ports, drawn per client), 1..3 concurrent clients, each one stream (tag byte + 0..64 KiB random / text / look-alike bytes) written in 1..5 pieces, backend answers with a stream 0..64 KiB in 1..5 pieces; copy over udp: 1..4 datagrams per client (0..60000 bytes), 0..2 reply datagrams each; dns-proxy over udp: 1..4 queries per client (own encoder: opcode, RD, 1..2 questions, 0..4 labels, 9 qtypes, optional OPT record; 1 in 7 is an arbitrary non-DNS datagram for which only non-corruption is asserted), one reply datagram 4..4004 bytes each; dns-proxy over tcp: 1..3 length-prefixed queries per connection with cuts in the first 40 bytes; oracle: backend received exactly the client's bytes, client received exactly the backend's, events attributed to the client's address, decoy untouched; non-trivial = a non-empty stream/datagram or >=2 datagrams on one client"
+const rawRule = "copy over tcp: two copy services (own director with a port / the port-less director shared with two http-proxy ports, drawn per client), 1..3 concurrent clients, each one stream (tag byte + 0..64 KiB random / text / look-alike bytes) written in 1..5 pieces, backend answers with a stream 0..64 KiB (1 in 10: up to 1 MiB) in 1..5 pieces; schedule: the client half-closes after its last byte (1 in 2), the backend replies from the first byte on or holds a drawn reply piece and the rest back until the client stream is complete and (if so) half-closed, plus 0..40 ms; copy over udp: 1..4 datagrams per client (0..60000 bytes), 0..2 reply datagrams each; dns-proxy over udp: 1..4 queries per client (own encoder: opcode, RD, 1..2 questions, 0..4 labels, 9 qtypes, optional OPT record; 1 in 7 is an arbitrary non-DNS datagram for which only non-corruption is asserted), one reply datagram 4..4004 bytes each; dns-proxy over tcp: 1..3 length-prefixed queries per connection, natural size or padded (EDNS0 padding option) to a drawn size 600..65535 with the boundary values 65531..65535 / powers of two favoured, replies likewise up to 65535 bytes, cuts in the first 40 bytes or anywhere, reply written in 1..5 pieces, client half-closes after its last query (1 in 3); oracle: backend received exactly the client's bytes, client received exactly the backend's, events attributed to the client's address, decoy untouched; non-trivial = a non-empty stream/datagram or >=2 datagrams on one client"
 
 func runRaw(t *testing.T, name, kind string, checks int) {
 	r := vlib.Open(prop)
@@ -1070,6 +1240,31 @@ func runRaw(t *testing.T, name, kind string, checks int) {
 		if kind == "copy-tcp" {
 			for _, cl := range c.Clients {
 				r.Label("copy-tcp/director="+[]string{"host-with-port", "shared-portless"}[cl.Svc%2], 1)
+				if cl.HalfClose && cl.Msgs[0].Replies[0].Len > 0 {
+					if cl.Gate > 0 {
+						r.Label("copy-tcp/client-half-close/reply-held-back", 1)
+					} else {
+						r.Label("copy-tcp/client-half-close/reply-from-first-byte", 1)
+					}
+				}
+				if cl.BackendHalfClose {
+					r.Label("copy-tcp/backend-half-close", 1)
+				}
+			}
+		}
+		if kind == "dns-tcp" {
+			for _, cl := range c.Clients {
+				if cl.HalfClose {
+					r.Label("dns-tcp/client-half-close", 1)
+				}
+				for _, m := range cl.Msgs {
+					if n := len(m.DNS.wire(0)); n >= 65534 {
+						r.Label("dns-tcp/query-size>=65534", 1)
+					}
+					if n := 4 + m.Replies[0].Len; n >= 65534 {
+						r.Label("dns-tcp/reply-size>=65534", 1)
+					}
+				}
 			}
 		}
 		if err := checkRaw(t, c); err != nil {
